@@ -46,7 +46,7 @@ ASSUMPTIONS = [
 ]
 
 
-EXPECTED_PROBES = ['numpy_integer_identifiers', 'policy_set_through_property', 'policy_switched_on_empty_heap', 'several_heaps_interleaved', 'removed_id_inserted_again', 'heap_emptied_by_pop', 'heap_full', 'heap_refilled_after_emptying', 'internal_arrays_inconsistent_while_behaviour_ok', 'pop_with_tie_at_extremum', 'real_fit_', 'real_trace_precondition_breach', 'real_trace_seam_not_engaged', 'real_update_of_queued', 'update_as_insert', 'update_strictly_improves']
+EXPECTED_PROBES = ['capacity_set_through_size_property', 'numpy_integer_identifiers', 'policy_set_through_property', 'policy_switched_on_empty_heap', 'several_heaps_interleaved', 'removed_id_inserted_again', 'heap_emptied_by_pop', 'heap_full', 'heap_refilled_after_emptying', 'internal_arrays_inconsistent_while_behaviour_ok', 'pop_with_tie_at_extremum', 'real_fit_', 'real_trace_precondition_breach', 'real_trace_seam_not_engaged', 'real_update_of_queued', 'update_as_insert', 'update_strictly_improves']
 
 
 def arms(tier):
@@ -200,6 +200,13 @@ def gen_case(rng, arm, tier, k=0):
     if rng.random() < 0.2:
         # the policy is chosen through the public `policy` property after construction
         case["ctor_policy"] = rng.choice(("min", "max"))
+    if rng.random() < 0.12:
+        # the capacity is set through the public `size` property of a larger, still empty heap
+        case["ctor_size"] = size + rng.randint(1, 6)
+    if rng.random() < 0.15 and ops:
+        # fault: an assignment of an unknown policy is refused with an exception; the heap goes on
+        for _ in range(rng.randint(1, 2)):
+            ops.insert(rng.randrange(len(ops) + 1), ["badpolicy", rng.choice(("median", "", "MIN ", "maximum"))])
     return case
 
 
@@ -297,12 +304,16 @@ def run_synth(case, out):
     # the policy string is built at run time (as it would be when it comes from a file or the
     # command line): equal to "min"/"max" but not the interned literal
     policy = "".join(list(policy))
+    ctor_size = case.get("ctor_size", size)
     if case.get("ctor_policy"):
-        h = lib_call("Heap()", Heap, size, "".join(list(case["ctor_policy"])))
+        h = lib_call("Heap()", Heap, ctor_size, "".join(list(case["ctor_policy"])))
         h.policy = policy
         bump(out.probes, "policy_set_through_property")
     else:
-        h = lib_call("Heap()", Heap, size, policy)
+        h = lib_call("Heap()", Heap, ctor_size, policy)
+    if ctor_size != size:
+        h.size = size
+        bump(out.probes, "capacity_set_through_size_property")
     m = PQModel(size, policy)
     log = EventLog()
     states = set()
@@ -367,6 +378,17 @@ def run_synth(case, out):
             got = m.check_pop(r, ctx)
             norm.append(("pop",))
             log.add("pop", got)
+        elif kind == "badpolicy":
+            try:
+                h.policy = op[1]
+                refused = False
+            except Exception:  # noqa: BLE001 - the refusal
+                refused = True
+            if not refused:
+                continue  # the value is accepted by this tree: not the fault we schedule, no verdict
+            bump(out.faults, "policy_assignment_refused")
+            norm.append(("badpolicy", 0, 0))
+            log.add("badpolicy")
         elif kind == "setpolicy":
             # an empty heap is re-used under the other policy
             if m.queued or op[1] not in ("min", "max") or op[1] == m.policy:
@@ -422,9 +444,9 @@ def run_synth(case, out):
     if sorted(m.returned) != sorted(m.inserted):
         raise Stop(violation("exactly-once", "insertions %s but removals returned %s" % (sorted(m.inserted), sorted(m.returned)), policy=policy))
     out.digest = log.hexdigest()
-    order = sorted(c for c in {float(o[2]) for o in norm if len(o) > 2 and o[0] != "setpolicy"})
+    order = sorted(c for c in {float(o[2]) for o in norm if len(o) > 2 and o[0] not in ("setpolicy", "badpolicy")})
     rank = {c: k for k, c in enumerate(order)}
-    out.hist = h64((size, case["policy"], case.get("ctor_policy"), tuple((o[0], o[1] if len(o) > 1 else -1, rank[float(o[2])] if len(o) > 2 and o[0] != "setpolicy" else -1) for o in norm)))
+    out.hist = h64((size, case["policy"], case.get("ctor_policy"), tuple((o[0], o[1] if len(o) > 1 else -1, rank[float(o[2])] if len(o) > 2 and o[0] not in ("setpolicy", "badpolicy") else -1) for o in norm)))
     out.nontrivial = m.pops >= 2 and m.upd_queued >= 1
     out.states = states
 
@@ -812,7 +834,7 @@ def shrink(case):
                 yield c
         return
     ops = case["ops"]
-    if any(o[0] == "setpolicy" for o in ops):
+    if any(o[0] in ("setpolicy", "badpolicy") for o in ops):
         return
     if case.get("ctor_policy"):
         c = dict(case)
